@@ -711,6 +711,15 @@ def call_ext(interp, ext, node, args, kwargs, st):
             and args[0].kind in ("list", "tuple") and args[0].items is not None and 0 < len(args[0].items) <= 6 and len(args) == 1 \
             and all(i_ is not None and i_.kind in ("float", "int") and i_.sym is not None for i_ in args[0].items) and set(kwargs) <= {"dtype"}:
         out.items = tuple(args[0].items)            # an array built from a display of scalars: component by component (as np.square([..]))
+    if isinstance(out, Val) and cext == "numpy.arange" and len(args) == 1 and not kwargs:
+        out.tags = out.tags | {("ringidx", 0)}              # i = 0 .. n-1: the identity index of a cycle of n rows
+    if isinstance(out, Val) and cext in ("numpy.mod", "numpy.remainder") and args:
+        ri_ = [t_ for t_ in args[0].tags if isinstance(t_, tuple) and t_ and t_[0] == "ringidx"]
+        if ri_:
+            out.tags = out.tags | {ri_[0]}                      # (i + k) % n: still the index shifted by k, wrapped around
+    if isinstance(out, Val) and out.kind in ("arr", "unknown") and cext == "numpy.einsum" and args and args[0].has_const() \
+            and isinstance(args[0].const, str) and args[0].const.replace(" ", "") in ("ij,ij->i", "ik,ik->i", "ij,ij", "nd,nd->n"):
+        with_ring(out, ring_union(args[1:3]))                    # the row-wise dot product
     if isinstance(out, Val) and out.kind in ("arr", "unknown") and (cext.startswith("numpy.")):
         try:
             m_, _, n_ = cext.rpartition(".")
